@@ -49,6 +49,8 @@ type Solver struct {
 	buf     strings.Builder
 	timeout int // ms
 	dead    bool
+	noModel bool
+	pathErr bool
 }
 
 func solverArgv(kind string, timeoutMs int) []string {
@@ -134,6 +136,7 @@ func (s *Solver) flush() {
 func (s *Solver) BeginPath() {
 	s.send("(push 1)")
 	s.depth = 1
+	s.pathErr = false
 	s.defined = map[int32]bool{}
 	s.nvars = 0
 	for k := range s.tabDef {
@@ -263,18 +266,21 @@ func (s *Solver) Check(extra *Term) (Result, Model) {
 		if strings.HasPrefix(line, "(error") {
 			s.Stats.Errors++
 			sawErr = true
+			s.pathErr = true
 			fmt.Fprintf(os.Stderr, "solver %s: %s\n", s.kind, line)
 			// keep reading: the check-sat answer still follows, but is not to be trusted
 			continue
 		}
 		fmt.Fprintf(os.Stderr, "solver %s: unexpected output %q\n", s.kind, line)
 	}
-	if sawErr && res != Unknown {
+	if (sawErr || s.pathErr) && res != Unknown {
 		// an assertion may have been dropped: inconclusive
 		res = Unknown
 	}
 	var model Model
-	if res == Sat && s.nvars > 0 {
+	if res == Sat && s.noModel {
+		model = Model{}
+	} else if res == Sat && s.nvars > 0 {
 		model = s.getModel()
 		if model == nil {
 			res = Unknown
